@@ -30,17 +30,42 @@ func TestC18(t *testing.T) {
 		func(rt *rapid.T, c *harness.Case) {
 			w := chain.GenWorld(rt)
 			c.Opf("%s", w.Describe())
+			// in half of the worlds the genesis file also gives some plain accounts coins of other denominations (one that sorts
+			// before and one that sorts after the staking denomination); sends only ever move the staking denomination
+			otherDenoms := rapid.Bool().Draw(rt, "otherDenominations")
+			if otherDenoms {
+				c.Label("accounts-hold-other-denominations")
+				for i := range w.Spec.Accounts {
+					if w.Spec.Accounts[i].Multi != nil {
+						continue
+					}
+					switch rapid.IntRange(0, 3).Draw(rt, "extraCoins") {
+					case 0:
+						w.Spec.Accounts[i].Extra = sdk.NewCoins(sdk.NewCoin("uzzz", sdk.NewInt(5000)))
+					case 1:
+						w.Spec.Accounts[i].Extra = sdk.NewCoins(sdk.NewCoin("aaa", sdk.NewInt(7)))
+					case 2:
+						w.Spec.Accounts[i].Extra = sdk.NewCoins(sdk.NewCoin("aaa", sdk.NewInt(7)), sdk.NewCoin("uzzz", sdk.NewInt(5000)))
+					}
+				}
+			}
 			n := chain.NewNode(&w.Spec)
 			collector := authTypes.NewModuleAddress(authTypes.FeeCollectorName)
 			modules := []sdk.Address{collector, authTypes.NewModuleAddress("staked_tokens_pool"), authTypes.NewModuleAddress("application_stake_tokens_pool"), authTypes.NewModuleAddress("dao")}
 			funded := w.AllFunded()
 			nblocks := rapid.IntRange(3, 6).Draw(rt, "nBlocks")
 			freshUsed := 0
+			var again crypto.PrivateKey
 			for b := 0; b < nblocks; b++ {
 				n.BeginBlock(chain.Block{DT: time.Second, Proposer: chain.Addr(w.Nodes[0])})
 				ntx := rapid.IntRange(1, 5).Draw(rt, "nTxs")
 				for i := 0; i < ntx; i++ {
 					k := funded[rapid.IntRange(0, len(funded)-1).Draw(rt, "from")]
+					if again != nil {
+						// the sender that was just drained to exactly one fee (or to nothing) sends once more
+						k, again = again, nil
+						c.Label("sender-with-nothing-but-the-fee")
+					}
 					from := chain.Addr(k)
 					before := n.Accounts()
 					bal := before[from.String()].AmountOf(sdk.DefaultStakeDenom)
@@ -68,7 +93,7 @@ func TestC18(t *testing.T) {
 						c.Label("self-send")
 						c.NonTrivial()
 					}
-					amtKind := rapid.SampledFrom([]string{"one", "spendable-1", "spendable", "spendable+1", "balance", "balance+1", "huge", "mid"}).Draw(rt, "amtKind")
+					amtKind := rapid.SampledFrom([]string{"one", "spendable-1", "spendable", "spendable+1", "balance", "balance+1", "huge", "mid", "leaveOneFee", "leaveOneFee"}).Draw(rt, "amtKind")
 					var amt sdk.BigInt
 					switch amtKind {
 					case "one":
@@ -83,6 +108,12 @@ func TestC18(t *testing.T) {
 						amt = bal
 					case "balance+1":
 						amt = bal.Add(sdk.OneInt())
+					case "leaveOneFee":
+						// afterwards the sender holds exactly the fee of one more transaction in the staking denomination
+						amt = spendable.Sub(sdk.NewInt(chain.DefaultFee))
+						if amt.IsPositive() {
+							again = k
+						}
 					case "huge":
 						amt = sdk.NewInt(1 << 62)
 					default:
